@@ -5,7 +5,7 @@ CONSTANTS
   ViewIds = {1, 2}
   MaxEvents = 3
   SharedSlot = FALSE
-  ArgAliased = FALSE
+  ArgAliased = TRUE
 INVARIANT ReadIsFilter
 INVARIANT SurvivorsInOrder
 INVARIANT EmptyInclude
